@@ -65,6 +65,76 @@ def _same(node, text):
     return dump(node) == dump(ast.parse(text).body[0])
 
 
+def extract_flags(repo: Path) -> dict:
+    """Shape recognition only (independent of the numeric translation): calculate_specific_ground_range, the two
+    mass updates, and how the fuel-dependent drivers install the new initial mass."""
+    src = Path(repo) / 'src/AEIC'
+    m = BadaModule('C19_Flags')
+    model = src / 'BADA/model.py'
+    # --- recognised shapes ---
+    mod = m._src(model)
+    sgr = find_function(mod, 'calculate_specific_ground_range', cls='Bada3FuelBurnModel')
+    body = strip_doc(sgr.body)
+    want_sgr = [
+        'thrust = self.calculate_thrust(mass, temperature, altitude, v_tas, rocd, acceleration, in_cruise)',
+        'fuel_flow = self.engine_model.calculate_nominal_fuel_flow(thrust, v_tas)',
+        'fuel_flow_cruise = self.engine_model.calculate_cruise_fuel_flow(thrust, v_tas)',
+        'fuel_flow = np.where(in_cruise, fuel_flow_cruise, fuel_flow)',
+        'return np.divide(groundspeed, fuel_flow, out=np.zeros_like(groundspeed), where=fuel_flow != 0)',
+    ]
+    if len(body) != len(want_sgr) or not all(_same(b, w) for b, w in zip(body, want_sgr)):
+        raise Untranslatable('model.py:calculate_specific_ground_range: body changed: ' + ast.unparse(sgr)[-400:])
+    base = src / 'BADA/fuel_burn_base.py'
+    bmod = m._src(base)
+    fwd = strip_doc(find_function(bmod, 'update_mass_vector', cls='BaseFuelBurnModel').body)
+    want_fwd = [
+        'specific_ground_range_corrected = np.where(specific_ground_range < 1, np.inf, specific_ground_range)',
+        'mass[1:] = mass[0] - cumulative_trapezoid(1 / specific_ground_range_corrected, dx=segment_distance)',
+        'return mass',
+    ]
+    if len(fwd) != 3 or not all(_same(b, w) for b, w in zip(fwd, want_fwd)):
+        raise Untranslatable('fuel_burn_base.py:update_mass_vector: body changed')
+    bwd = strip_doc(find_function(bmod, 'update_mass_vector_backward', cls='BaseFuelBurnModel').body)
+    flags = {}
+    if len(bwd) == 4 and _same(bwd[0], want_fwd[0]) and _same(bwd[2], 'mass[:-1] = mass[-1] + cumulative_integral') \
+            and _same(bwd[3], 'return mass'):
+        as_coded = 'cumulative_integral = cumulative_trapezoid(1 / specific_ground_range_corrected[::-1], dx=segment_distance)[::-1]'
+        repaired = ('cumulative_integral = cumulative_trapezoid(1 / specific_ground_range_corrected[::-1], '
+                    'dx=np.flip(segment_distance))[::-1]')
+        if _same(bwd[1], as_coded):
+            flags['backward_dx_reversed'] = False
+        elif _same(bwd[1], repaired):
+            flags['backward_dx_reversed'] = True
+        else:
+            raise Untranslatable('fuel_burn_base.py:update_mass_vector_backward: integral statement changed: '
+                                 + ast.unparse(bwd[1]))
+    else:
+        raise Untranslatable('fuel_burn_base.py:update_mass_vector_backward: body changed')
+    # fuel-dependent drivers: how the new initial mass is installed
+    mod = m._src(model)
+    for drv in ('iterate_flight_simulation_fuel_burn_dependent_initial_mass_rf_fraction',
+                'iterate_flight_simulation_fuel_burn_dependent_initial_mass_rf_value'):
+        fn = find_function(mod, drv, cls='Bada3FuelBurnModel')
+        loops = [s for s in strip_doc(fn.body) if isinstance(s, ast.For)]
+        if len(loops) != 1:
+            raise Untranslatable(f'model.py:{drv}: expected one loop')
+        stm = loops[0].body
+        idx = [i for i, s in enumerate(stm) if isinstance(s, ast.Assign) and ast.unparse(s.targets[0]) == 'initial_mass']
+        if len(idx) != 1:
+            raise Untranslatable(f'model.py:{drv}: initial_mass assignment not found')
+        after = stm[idx[0] + 1:]
+        if after and _same(after[0], 'mass[0] = initial_mass'):
+            kind = False
+        elif len(after) >= 2 and _same(after[0], 'mass[1:] += initial_mass - mass[0]') and _same(after[1], 'mass[0] = initial_mass'):
+            kind = True
+        else:
+            raise Untranslatable(f'model.py:{drv}: statement installing the new initial mass changed: '
+                                 + ast.unparse(after[0])[:120] if after else 'missing')
+        if flags.setdefault('shift_whole_vector', kind) != kind:
+            raise Untranslatable('model.py: the two fuel-dependent drivers install the initial mass differently')
+    return flags
+
+
 def extract_c19(repo: Path) -> tuple[str, dict]:
     src = Path(repo) / 'src/AEIC'
     m = BadaModule('C19_Extracted')
@@ -134,67 +204,7 @@ def extract_c19(repo: Path) -> tuple[str, dict]:
     m.known['calculate_air_density'] = 2
     m.method(model, 'Bada3FuelBurnModel', 'calculate_thrust', 'calc_thrust', EP, bool_params=['in_cruise'])
 
-    # --- recognised shapes ---
-    mod = m._src(model)
-    sgr = find_function(mod, 'calculate_specific_ground_range', cls='Bada3FuelBurnModel')
-    body = strip_doc(sgr.body)
-    want_sgr = [
-        'thrust = self.calculate_thrust(mass, temperature, altitude, v_tas, rocd, acceleration, in_cruise)',
-        'fuel_flow = self.engine_model.calculate_nominal_fuel_flow(thrust, v_tas)',
-        'fuel_flow_cruise = self.engine_model.calculate_cruise_fuel_flow(thrust, v_tas)',
-        'fuel_flow = np.where(in_cruise, fuel_flow_cruise, fuel_flow)',
-        'return np.divide(groundspeed, fuel_flow, out=np.zeros_like(groundspeed), where=fuel_flow != 0)',
-    ]
-    if len(body) != len(want_sgr) or not all(_same(b, w) for b, w in zip(body, want_sgr)):
-        raise Untranslatable('model.py:calculate_specific_ground_range: body changed: ' + ast.unparse(sgr)[-400:])
-    base = src / 'BADA/fuel_burn_base.py'
-    bmod = m._src(base)
-    fwd = strip_doc(find_function(bmod, 'update_mass_vector', cls='BaseFuelBurnModel').body)
-    want_fwd = [
-        'specific_ground_range_corrected = np.where(specific_ground_range < 1, np.inf, specific_ground_range)',
-        'mass[1:] = mass[0] - cumulative_trapezoid(1 / specific_ground_range_corrected, dx=segment_distance)',
-        'return mass',
-    ]
-    if len(fwd) != 3 or not all(_same(b, w) for b, w in zip(fwd, want_fwd)):
-        raise Untranslatable('fuel_burn_base.py:update_mass_vector: body changed')
-    bwd = strip_doc(find_function(bmod, 'update_mass_vector_backward', cls='BaseFuelBurnModel').body)
-    flags = {}
-    if len(bwd) == 4 and _same(bwd[0], want_fwd[0]) and _same(bwd[2], 'mass[:-1] = mass[-1] + cumulative_integral') \
-            and _same(bwd[3], 'return mass'):
-        as_coded = 'cumulative_integral = cumulative_trapezoid(1 / specific_ground_range_corrected[::-1], dx=segment_distance)[::-1]'
-        repaired = ('cumulative_integral = cumulative_trapezoid(1 / specific_ground_range_corrected[::-1], '
-                    'dx=np.flip(segment_distance))[::-1]')
-        if _same(bwd[1], as_coded):
-            flags['backward_dx_reversed'] = False
-        elif _same(bwd[1], repaired):
-            flags['backward_dx_reversed'] = True
-        else:
-            raise Untranslatable('fuel_burn_base.py:update_mass_vector_backward: integral statement changed: '
-                                 + ast.unparse(bwd[1]))
-    else:
-        raise Untranslatable('fuel_burn_base.py:update_mass_vector_backward: body changed')
-    # fuel-dependent drivers: how the new initial mass is installed
-    mod = m._src(model)
-    for drv in ('iterate_flight_simulation_fuel_burn_dependent_initial_mass_rf_fraction',
-                'iterate_flight_simulation_fuel_burn_dependent_initial_mass_rf_value'):
-        fn = find_function(mod, drv, cls='Bada3FuelBurnModel')
-        loops = [s for s in strip_doc(fn.body) if isinstance(s, ast.For)]
-        if len(loops) != 1:
-            raise Untranslatable(f'model.py:{drv}: expected one loop')
-        stm = loops[0].body
-        idx = [i for i, s in enumerate(stm) if isinstance(s, ast.Assign) and ast.unparse(s.targets[0]) == 'initial_mass']
-        if len(idx) != 1:
-            raise Untranslatable(f'model.py:{drv}: initial_mass assignment not found')
-        after = stm[idx[0] + 1:]
-        if after and _same(after[0], 'mass[0] = initial_mass'):
-            kind = False
-        elif len(after) >= 2 and _same(after[0], 'mass[1:] += initial_mass - mass[0]') and _same(after[1], 'mass[0] = initial_mass'):
-            kind = True
-        else:
-            raise Untranslatable(f'model.py:{drv}: statement installing the new initial mass changed: '
-                                 + ast.unparse(after[0])[:120] if after else 'missing')
-        if flags.setdefault('shift_whole_vector', kind) != kind:
-            raise Untranslatable('model.py: the two fuel-dependent drivers install the initial mass differently')
+    flags = extract_flags(repo)
     # piston flow unit (kg/min in the OPF file): recognised forms
     text = ('(* generated by translator/c19_extract.py from the current /repo working tree — do not edit *)\n'
             'From Coq Require Import ZArith PrimFloat Bool.\nFrom AV Require Import lib.Num model.C19_Model.\n'
